@@ -14,6 +14,7 @@ FAMILIES = {
     "density": ["g/cm**3", "kg/m**3", "M_sun/pc**3"],
     "energy": ["erg", "J"],
     "dimensionless": ["dimensionless"],
+    "temperature": ["K"],
 }
 FAMILIES_QUICK = {
     "length": ["cm", "m", "au"],
@@ -23,6 +24,7 @@ FAMILIES_QUICK = {
     "density": ["g/cm**3", "M_sun/pc**3"],
     "energy": ["erg", "J"],
     "dimensionless": ["dimensionless"],
+    "temperature": ["K"],
 }
 
 
